@@ -43,14 +43,14 @@ pub static DEF: PropDef = PropDef {
     tokio_per_case: true,
 };
 
-struct RemoteId {
-    signing: Ed25519SigningKey,
-    vkey: Vec<u8>,
-    meeting: MeetingSecret,
-    peer_node: Node,
+pub(crate) struct RemoteId {
+    pub(crate) signing: Ed25519SigningKey,
+    pub(crate) vkey: Vec<u8>,
+    pub(crate) meeting: MeetingSecret,
+    pub(crate) peer_node: Node,
 }
 
-fn remote_identity(seed: u64, idx: u64) -> RemoteId {
+pub(crate) fn remote_identity(seed: u64, idx: u64) -> RemoteId {
     let km = key_material(seed, idx);
     let signing = signing_key_for(APP_KEY, &km);
     let vkey = signing.export_verifying_key();
@@ -84,16 +84,16 @@ struct ConnLog {
     conn_id: Uid,
 }
 
-struct Conn {
-    h_answer_tx: mpsc::Sender<Answer>,
-    h_answer_rx: mpsc::Receiver<Answer>,
-    h_query_tx: mpsc::Sender<QueryProtocol>,
-    h_query_rx: mpsc::Receiver<QueryProtocol>,
-    _h_event_tx: mpsc::Sender<RemoteEvent>,
-    h_event_rx: mpsc::Receiver<RemoteEvent>,
+pub(crate) struct Conn {
+    pub(crate) h_answer_tx: mpsc::Sender<Answer>,
+    pub(crate) h_answer_rx: mpsc::Receiver<Answer>,
+    pub(crate) h_query_tx: mpsc::Sender<QueryProtocol>,
+    pub(crate) h_query_rx: mpsc::Receiver<QueryProtocol>,
+    pub(crate) _h_event_tx: mpsc::Sender<RemoteEvent>,
+    pub(crate) h_event_rx: mpsc::Receiver<RemoteEvent>,
 }
 
-async fn open(d: &Discret, token: MeetingToken, claimed_key: &[u8], conn_id: Uid) -> Conn {
+pub(crate) async fn open(d: &Discret, token: MeetingToken, claimed_key: &[u8], conn_id: Uid) -> Conn {
     let (d_answer_tx, h_answer_rx) = mpsc::channel::<Answer>(32);
     let (h_answer_tx, d_answer_rx) = mpsc::channel::<Answer>(32);
     let (d_query_tx, h_query_rx) = mpsc::channel::<QueryProtocol>(32);
